@@ -765,9 +765,30 @@ def check_reductions(prog, rep):
 
 
 def _ohv_running_max(prog, rep):
-    """classify the `running maximum over parent columns` reformulation: its bound must be the number of parents"""
+    """classify the `running maximum over parent columns` reformulation: its bound must be the number of parents, its accumulator must not floor the maximum"""
     c = prog.get_class("OptimalHaploidValueSelectionProblemMixin", PROB + "OptimalHaploidValueSelectionProblem")
     f = prog.own_method(c, "_calc_ohvmat")
+    # accumulator of an in-place running maximum: numpy.maximum(acc, x, out=acc) / acc = numpy.maximum(acc, x)
+    accs = set()
+    for n in ast.walk(f.node):
+        if isinstance(n, ast.Call) and prog.dotted(f.module, n.func) == "numpy.maximum" and len(n.args) >= 2 and isinstance(n.args[0], ast.Name):
+            kws, _ = kwargs_of(n)
+            if ("out" in kws and dump(kws["out"]) == n.args[0].id):
+                accs.add(n.args[0].id)
+        if isinstance(n, ast.Assign) and isinstance(n.value, ast.Call) and prog.dotted(f.module, n.value.func) == "numpy.maximum" and n.value.args \
+                and isinstance(n.targets[0], ast.Name) and dump(n.value.args[0]) == n.targets[0].id:
+            accs.add(n.targets[0].id)
+    for a in sorted(accs):
+        inits = [s for s in ast.walk(f.node) if isinstance(s, ast.Assign) and len(s.targets) == 1 and dump(s.targets[0]) == a
+                 and not (isinstance(s.value, ast.Call) and prog.dotted(f.module, s.value.func) == "numpy.maximum")]
+        for s in inits:
+            v = s.value
+            fn = prog.dotted(f.module, v.func) if isinstance(v, ast.Call) else None
+            if fn in ("numpy.zeros", "numpy.zeros_like") or (fn in ("numpy.full", "numpy.full_like") and len(v.args) > 1 and isinstance(v.args[1], ast.Constant)
+                                                            and isinstance(v.args[1].value, (int, float)) and v.args[1].value > -1e300):
+                rep.violate("R6-reduce", f.qualname, "the running maximum over parents and phases starts from %s: the best block value is floored at that constant, so a block whose "
+                            "haplotype values are all below it (negative effects) contributes the constant instead of its maximum" % dump(v)[:50], where(f, s),
+                            "start from the first parent/phase or from -inf", dump(v)[:50])
     for lp in ast.walk(f.node):
         if not (isinstance(lp, ast.For) and isinstance(lp.iter, ast.Call) and dump(lp.iter.func) == "range" and isinstance(lp.target, ast.Name)):
             continue
